@@ -1,4 +1,4 @@
-import H8.Model.Bus
+import H8.Model.Cpu
 import H8.Spec.MemMap
 import H8.Spec.Port
 import H8.Spec.Timer
@@ -42,6 +42,33 @@ def stepModel (st : HSt) (op : String) : HSt :=
     | .ok v => { st with res := st.res.push (bvHex v) }
     | .err => { st with res := st.res.push "e" }
     | .panic => { st with res := st.res.push "P" }
+  | "R" | "L" =>
+    let a := BitVec.ofNat 32 (hexD rest)
+    let c : Cpu := { bus := st.bus }
+    let r : Res (BitVec 32) := if k == "R" then (match readAbs24W a c with | .ok v s => .ok (v.setWidth 32) s | .err => .err | .panic => .panic)
+                               else readAbs24L a c
+    match r with
+    | .ok v _ => { st with res := st.res.push (bvHex v) }
+    | .err => { st with res := st.res.push "e" }
+    | .panic => { st with res := st.res.push "P" }
+  | "W" | "M" =>
+    let (a, v) := hexPair rest
+    let a := BitVec.ofNat 32 a
+    let c : Cpu := { bus := st.bus }
+    let r := if k == "W" then writeAbs24W a (BitVec.ofNat 16 v) c else writeAbs24L a (BitVec.ofNat 32 v) c
+    match r with
+    | .ok _ c' => { st with bus := c'.bus, res := st.res.push "k" }
+    | .panic => { st with res := st.res.push "P" }
+    | .err =>
+      -- the byte writes before the failing one have taken effect
+      let bytes : List (BitVec 8) := if k == "W" then [BitVec.ofNat 8 (v / 256), BitVec.ofNat 8 v]
+        else [BitVec.ofNat 8 (v / 16777216), BitVec.ofNat 8 (v / 65536), BitVec.ofNat 8 (v / 256), BitVec.ofNat 8 v]
+      let (b, _) := bytes.zipIdx.foldl (fun (acc : Bus × Bool) (bv, i) =>
+        if acc.2 then acc else
+        match acc.1.write (a + BitVec.ofNat 32 i) bv with
+        | .ok b' => (b', false)
+        | _ => (acc.1, true)) (st.bus, false)
+      { st with bus := b, res := st.res.push "e" }
   | "p" =>
     let (p, v) := hexPair rest
     { st with bus := st.bus.writePort (p % 256) (BitVec.ofNat 8 v), res := st.res.push "k" }
@@ -64,6 +91,7 @@ structure MapSt where
   m : Std.HashMap Nat (BitVec 8) := {}
   res : Array String := #[]
   dom : Bool := true
+  dc : List Nat := []        -- addresses left open by a failing multi-byte write
 
 def stepMap09 (st : MapSt) (op : String) : MapSt :=
   let k := op.take 1 |>.toString
@@ -77,8 +105,30 @@ def stepMap09 (st : MapSt) (op : String) : MapSt :=
     else { st with res := st.res.push "e" }
   | "r" =>
     let a := hexD rest
-    if decide (Spec.accessible a) then { st with res := st.res.push (bvHex (st.m.getD a 0#8)) }
+    if decide (Spec.accessible a) then { st with res := st.res.push (bvHex (st.m.getD a 0#8)), dom := st.dom && !st.dc.contains a }
     else { st with res := st.res.push "e" }
+  | "R" | "L" =>
+    -- big-endian composition of the consecutive bytes; fails if any of them is inaccessible
+    let a := hexD rest
+    let n := if k == "R" then 2 else 4
+    let addrs := (List.range n).map (a + ·)
+    if addrs.all (fun x => decide (Spec.accessible x)) then
+      let v := addrs.foldl (fun acc x => acc * 256 + (st.m.getD x 0#8).toNat) 0
+      { st with res := st.res.push (toHex v), dom := st.dom && addrs.all (fun x => !st.dc.contains x) }
+    else { st with res := st.res.push "e" }
+  | "W" | "M" =>
+    let (a, v) := hexPair rest
+    let n := if k == "W" then 2 else 4
+    let addrs := (List.range n).map (a + ·)
+    if addrs.all (fun x => decide (Spec.accessible x)) then
+      if addrs.all (fun x => decide (Spec.plain x)) then
+        let m := (List.range n).foldl (fun m i => m.insert (a + i) (BitVec.ofNat 8 (v / 256 ^ (n - 1 - i)))) st.m
+        { st with m := m, res := st.res.push "k" }
+      else { st with dom := false, res := st.res.push "k" }
+    else
+      -- an access that reaches an inaccessible address fails; which of its accessible bytes were stored
+      -- before the failure is left open
+      { st with res := st.res.push "e", dc := st.dc ++ addrs.filter (fun x => decide (Spec.accessible x)) }
   | _ => { st with dom := false, res := st.res.push "?" }
 
 def runSpec09 (ops : String) : String :=
@@ -86,7 +136,7 @@ def runSpec09 (ops : String) : String :=
   let cells := st.m.toList.filter (fun (_, v) => v != 0#8)
   let cells := cells.toArray.qsort (fun a b => a.1 < b.1) |>.toList
   let mem := ",".intercalate (cells.map (fun (a, v) => s!"{toHex a}:{bvHex v}"))
-  s!"{";".intercalate st.res.toList} mem={mem} dom={if st.dom then 1 else 0}"
+  s!"{";".intercalate st.res.toList} mem={mem} dom={if st.dom then 1 else 0} dc={",".intercalate (st.dc.map toHex)}"
 
 def bus09Line (ops : String) : String := s!"M {runModelHistory ops} | S {runSpec09 ops}"
 
